@@ -116,6 +116,7 @@ type c08Ev struct {
 	K      int     `json:"c"` // caller (reg, end)
 	ID     int32   `json:"id"`
 	Pay    uint64  `json:"pay"` // pkt: payload; end: payload got (if Got)
+	Conn   int     `json:"conn,omitempty"` // pkt: connection it was written to
 	Oneway bool    `json:"ow,omitempty"`
 	Got    bool    `json:"got,omitempty"`
 	IDs    []int32 `json:"ids,omitempty"` // snap: ids found in the pending-reply table at that moment
@@ -132,6 +133,9 @@ type c08Case struct {
 	// trace
 	N         int      `json:"n"`      // callers per round
 	Rounds    int      `json:"rounds"` // rounds on the same proxy / connection, one after the other (0 = 1)
+	Proxies   int      `json:"proxies"` // ServantProxy objects (own adapter, own connection to the same server) the callers are spread over (0 = 1)
+	NConn     int      `json:"nconn"`   // observed: connections the server accepted
+	ConnOf    []int    `json:"conn_of"` // observed, per caller: connection its request arrived on (-1: never seen)
 	Pending   []int32  `json:"pending"` // observed: ids left in the pending-reply table after the last round
 	SetID     bool     `json:"set_id"` // set the counter to Start before the scenario
 	Acts      []string `json:"acts"`   // per caller
@@ -262,16 +266,30 @@ func c08RunTrace(c *c08Case) []Failure {
 	}
 	defer ln.Close()
 	port := ln.Addr().(*net.TCPAddr).Port
-	obj := c08NextObj("C08")
-	sp := c08Proxy(obj, port)
+	nprox := c.Proxies
+	if nprox < 1 {
+		nprox = 1
+	}
 	log := &c08Log{}
-	c08SetHook(obj, func(req *requestf.RequestPacket) {
-		b := tools.Int8ToByte(req.SBuffer)
-		if len(b) == 8 {
-			log.add(c08Ev{Kind: "reg", K: int(binary.BigEndian.Uint32(b)), ID: req.IRequestId})
+	var sps []*tars.ServantProxy
+	for i := 0; i < nprox; i++ {
+		obj := c08NextObj("C08")
+		sps = append(sps, c08Proxy(obj, port))
+		c08SetHook(obj, func(req *requestf.RequestPacket) {
+			b := tools.Int8ToByte(req.SBuffer)
+			if len(b) == 8 {
+				log.add(c08Ev{Kind: "reg", K: int(binary.BigEndian.Uint32(b)), ID: req.IRequestId})
+			}
+		})
+		defer c08SetHook(obj, nil)
+	}
+	pendingIDs := func() []int32 {
+		var ids []int32
+		for _, sp := range sps {
+			ids = append(ids, tars.VerifC08PendingIDs(sp)...)
 		}
-	})
-	defer c08SetHook(obj, nil)
+		return ids
+	}
 	rounds := c.Rounds
 	if rounds < 1 {
 		rounds = 1
@@ -282,6 +300,7 @@ func c08RunTrace(c *c08Case) []Failure {
 		k    int
 		id   int32
 		conn net.Conn
+		ci   int
 	}
 	reqCh := make(chan seen, total+8)
 	var wmu sync.Mutex
@@ -294,6 +313,7 @@ func c08RunTrace(c *c08Case) []Failure {
 				return
 			}
 			cmu.Lock()
+			ci := len(conns)
 			conns = append(conns, conn)
 			cmu.Unlock()
 			go func(conn net.Conn) {
@@ -306,7 +326,7 @@ func c08RunTrace(c *c08Case) []Failure {
 					if len(b) != 8 {
 						continue
 					}
-					reqCh <- seen{int(binary.BigEndian.Uint32(b)), req.IRequestId, conn}
+					reqCh <- seen{int(binary.BigEndian.Uint32(b)), req.IRequestId, conn, ci}
 				}
 			}(conn)
 		}
@@ -323,14 +343,25 @@ func c08RunTrace(c *c08Case) []Failure {
 	for i := range ended {
 		ended[i] = make(chan struct{})
 	}
+	connIdx := func(conn net.Conn) int {
+		cmu.Lock()
+		defer cmu.Unlock()
+		for i, cn := range conns {
+			if cn == conn {
+				return i
+			}
+		}
+		return 0
+	}
 	send := func(conn net.Conn, id int32, pay []byte, ow bool) {
 		pt := basef.TARSNORMAL
 		if ow {
 			pt = basef.TARSONEWAY
 		}
 		pkt := c08EncodeResponse(id, pt, pay)
-		log.add(c08Ev{Kind: "pkt", ID: id, Pay: binary.BigEndian.Uint64(pay), Oneway: ow})
+		ci := connIdx(conn)
 		wmu.Lock()
+		log.add(c08Ev{Kind: "pkt", ID: id, Pay: binary.BigEndian.Uint64(pay), Oneway: ow, Conn: ci})
 		conn.SetWriteDeadline(time.Now().Add(5 * time.Second))
 		conn.Write(pkt)
 		wmu.Unlock()
@@ -367,7 +398,7 @@ func c08RunTrace(c *c08Case) []Failure {
 				ctx, cancel := context.WithTimeout(context.Background(), to)
 				defer cancel()
 				var resp requestf.ResponsePacket
-				err := sp.TarsInvoke(ctx, 0, "echo", c08Payload(uint32(k), 0), nil, nil, &resp)
+				err := sps[k%nprox].TarsInvoke(ctx, 0, "echo", c08Payload(uint32(k), 0), nil, nil, &resp)
 				o := outc{}
 				if err == nil {
 					b := tools.Int8ToByte(resp.SBuffer)
@@ -401,7 +432,7 @@ func c08RunTrace(c *c08Case) []Failure {
 		}
 		// snapshot of the pending-reply table while the round's calls are outstanding: a call whose request the server
 		// has seen and that cannot end yet (8 s deadline, nothing sent to it) must have its entry under its own id
-		snap := tars.VerifC08PendingIDs(sp)
+		snap := pendingIDs()
 		log.add(c08Ev{Kind: "snap", IDs: snap})
 		inSnap := map[int32]bool{}
 		for _, id := range snap {
@@ -409,16 +440,15 @@ func c08RunTrace(c *c08Case) []Failure {
 		}
 		// (callers that race on a proxy's first call may each create an adapter and connection of their own, of which the
 		// endpoint manager keeps one; the accessor sees that one, so the monitor applies when the whole round came
-		// through one connection)
-		oneConn := true
+		// through one connection per proxy)
+		usedConn, usedProx := map[int]bool{}, map[int]bool{}
 		for k := lo; k < hi; k++ {
-			if s, ok := reqs[k]; ok && s.conn != reqs[lo].conn {
-				oneConn = false
+			if s, ok := reqs[k]; ok {
+				usedConn[s.ci] = true
+				usedProx[k%nprox] = true
 			}
 		}
-		if _, ok := reqs[lo]; !ok {
-			oneConn = false
-		}
+		oneConn := len(usedConn) > 0 && len(usedConn) == len(usedProx) // one connection per proxy in use
 		for k := lo; k < hi && oneConn; k++ {
 			if s, ok := reqs[k]; ok && patient(k) && !inSnap[s.id] {
 				fs = append(fs, Failure{Sig: "call/outstanding-call-has-no-entry", Desc: fmt.Sprintf("caller %d is outstanding with request id %d (request seen by the server, no reply sent, 8 s deadline) but the pending-reply table holds only %v", k, s.id, snap)})
@@ -467,6 +497,19 @@ func c08RunTrace(c *c08Case) []Failure {
 			case "oneway": // right id, one-way packet type: dropped by Recv
 				send(s.conn, s.id, c08Payload(c08Poison, uint32(k)), true)
 				genuine()
+			case "fcross": // this call's id, poisoned payload, on another connection of the process (if there is one)
+				cmu.Lock()
+				var other net.Conn
+				for _, cn := range conns {
+					if cn != s.conn {
+						other = cn
+					}
+				}
+				cmu.Unlock()
+				if other != nil {
+					send(other, s.id, c08Payload(c08Poison, uint32(k)), false)
+				}
+				genuine()
 			case "fdone": // id of a call that has already returned (this round or an earlier one)
 				var j = -1
 				for _, d := range doneList {
@@ -504,7 +547,17 @@ func c08RunTrace(c *c08Case) []Failure {
 	}
 	lateWg.Wait()
 	time.Sleep(30 * time.Millisecond) // let the receivers of the late packets run
-	c.Pending = tars.VerifC08PendingIDs(sp)
+	c.Pending = pendingIDs()
+	cmu.Lock()
+	c.NConn = len(conns)
+	cmu.Unlock()
+	c.ConnOf = make([]int, total)
+	for k := range c.ConnOf {
+		c.ConnOf[k] = -1
+		if s, ok := reqs[k]; ok {
+			c.ConnOf[k] = s.ci
+		}
+	}
 	log.mu.Lock()
 	c.Events = append([]c08Ev(nil), log.ev...)
 	log.mu.Unlock()
@@ -543,19 +596,29 @@ func c08RunTrace(c *c08Case) []Failure {
 	if len(c.Pending) != 0 {
 		fs = append(fs, Failure{Sig: "call/pending-entry-left", Desc: fmt.Sprintf("after all %d callers returned the pending-reply table still holds ids %v", total, c.Pending)})
 	}
-	if q := tars.VerifC08QueueLen(sp); q != 0 {
-		fs = append(fs, Failure{Sig: "call/queueLen-not-restored", Desc: fmt.Sprintf("after all %d callers returned queueLen = %d", total, q)})
+	for _, sp := range sps {
+		if q := tars.VerifC08QueueLen(sp); q != 0 {
+			fs = append(fs, Failure{Sig: "call/queueLen-not-restored", Desc: fmt.Sprintf("after all %d callers returned queueLen = %d", total, q)})
+		}
 	}
 	return fs
 }
 
-// c08Labels turns the event log into a label sequence of Conc/Pending.v plus the per-call observed outcomes
-// (calls numbered in registration order). Internal steps (lookup, hand-over, timeout) are placed where the machine can
-// take them; a log the machine cannot follow is rejected by accepts.
-func c08Labels(evs []c08Ev) (string, string, string) {
+// c08Labels turns the event log into a tagged label sequence of the product of Conc/Pending.v machines (one per
+// connection the server accepted, plus one for callers whose request never arrived) and the per-connection, per-call
+// observed outcomes (calls numbered in registration order on their connection). Internal steps (lookup, hand-over,
+// timeout) are placed where the machine can take them; a log the machine cannot follow is rejected by maccepts.
+func c08Labels(c *c08Case) (int, string, string, string) {
+	nad := c.NConn + 1
+	adOf := func(k int) int {
+		if k >= 0 && k < len(c.ConnOf) && c.ConnOf[k] >= 0 && c.ConnOf[k] < c.NConn {
+			return c.ConnOf[k]
+		}
+		return c.NConn
+	}
 	var ls []string
 	var snaps []string
-	idx := map[int]int{} // caller -> call number
+	idx := map[int]int{} // caller -> call number on its adapter
 	idOf := map[int]int32{}
 	type rcv struct {
 		id     int32
@@ -564,20 +627,27 @@ func c08Labels(evs []c08Ev) (string, string, string) {
 		looked bool
 		used   bool
 	}
-	var rs []rcv
-	var outs []string
-	ncalls := 0
-	for _, e := range evs {
+	rs := make([][]rcv, nad)
+	outs := make([][]string, nad)
+	add := func(a int, f string, args ...interface{}) {
+		ls = append(ls, fmt.Sprintf("(%d%%nat, %s)", a, fmt.Sprintf(f, args...)))
+	}
+	for _, e := range c.Events {
 		switch e.Kind {
 		case "reg":
-			idx[e.K] = ncalls
+			a := adOf(e.K)
+			idx[e.K] = len(outs[a])
 			idOf[e.K] = e.ID
-			ls = append(ls, fmt.Sprintf("LRegister (%d)%%Z false", e.ID), fmt.Sprintf("LSendOk %d", ncalls))
-			outs = append(outs, "None")
-			ncalls++
+			add(a, "LRegister (%d)%%Z false", e.ID)
+			add(a, "LSendOk %d", idx[e.K])
+			outs[a] = append(outs[a], "None")
 		case "pkt":
-			ls = append(ls, fmt.Sprintf("LPacket (mkp (%d)%%Z %d%%N %s)", e.ID, e.Pay, coqBool(e.Oneway)))
-			rs = append(rs, rcv{id: e.ID, pay: e.Pay, ow: e.Oneway})
+			a := e.Conn
+			if a < 0 || a >= c.NConn {
+				a = c.NConn
+			}
+			add(a, "LPacket (mkp (%d)%%Z %d%%N %s)", e.ID, e.Pay, coqBool(e.Oneway))
+			rs[a] = append(rs[a], rcv{id: e.ID, pay: e.Pay, ow: e.Oneway})
 		case "snap":
 			snaps = append(snaps, fmt.Sprintf("(%d%%nat, %s)", len(ls), c08Zs(e.IDs)))
 		case "end":
@@ -585,39 +655,52 @@ func c08Labels(evs []c08Ev) (string, string, string) {
 			if !ok { // never registered (call failed before the filter): not part of the table's history
 				continue
 			}
+			a := adOf(e.K)
 			if e.Got {
 				r := -1
-				for i := range rs {
-					if !rs[i].used && !rs[i].looked && !rs[i].ow && rs[i].id == idOf[e.K] && rs[i].pay == e.Pay {
+				for i := range rs[a] {
+					if !rs[a][i].used && !rs[a][i].looked && !rs[a][i].ow && rs[a][i].id == idOf[e.K] && rs[a][i].pay == e.Pay {
 						r = i
 						break
 					}
 				}
-				if r < 0 { // no packet explains this delivery: pick any unused packet with that payload so that accepts rejects
-					for i := range rs {
-						if !rs[i].used && !rs[i].looked && rs[i].pay == e.Pay {
-							r = i
-							break
+				ra := a
+				if r < 0 { // no packet on its connection explains this delivery: pick any unused packet with that payload, on any connection, so that maccepts rejects
+				search:
+					for b := range rs {
+						for i := range rs[b] {
+							if !rs[b][i].used && !rs[b][i].looked && rs[b][i].pay == e.Pay {
+								r, ra = i, b
+								break search
+							}
 						}
 					}
 				}
 				if r >= 0 {
-					rs[r].used, rs[r].looked = true, true
-					ls = append(ls, fmt.Sprintf("LLookup %d", r), fmt.Sprintf("LHandoff %d", r))
+					rs[ra][r].used, rs[ra][r].looked = true, true
+					add(ra, "LLookup %d", r)
+					add(ra, "LHandoff %d", r)
 				}
-				ls = append(ls, fmt.Sprintf("LReturn %d", ci))
-				outs[ci] = fmt.Sprintf("Some %d%%N", e.Pay)
+				add(a, "LReturn %d", ci)
+				outs[a][ci] = fmt.Sprintf("Some %d%%N", e.Pay)
 			} else {
-				ls = append(ls, fmt.Sprintf("LTimeout %d", ci), fmt.Sprintf("LReturn %d", ci))
+				add(a, "LTimeout %d", ci)
+				add(a, "LReturn %d", ci)
 			}
 		}
 	}
-	for i := range rs {
-		if !rs[i].looked {
-			ls = append(ls, fmt.Sprintf("LLookup %d", i))
+	for a := range rs {
+		for i := range rs[a] {
+			if !rs[a][i].looked {
+				add(a, "LLookup %d", i)
+			}
 		}
 	}
-	return "[" + strings.Join(ls, "; ") + "]", "[" + strings.Join(outs, "; ") + "]", "[" + strings.Join(snaps, "; ") + "]"
+	os := make([]string, nad)
+	for a := range outs {
+		os[a] = "[" + strings.Join(outs[a], "; ") + "]"
+	}
+	return nad, "[" + strings.Join(ls, "; ") + "]", "[" + strings.Join(os, "; ") + "]", "[" + strings.Join(snaps, "; ") + "]"
 }
 
 func c08Zs(l []int32) string {
@@ -640,8 +723,8 @@ func c08Coq(c *c08Case) string {
 	case "mt":
 		return fmt.Sprintf("KMt ((%d)%%Z, %s, (%d)%%Z)", c.Start, c08Zs(c.IDs), c.Final)
 	}
-	ls, outs, snaps := c08Labels(c.Events)
-	return fmt.Sprintf("KTrace (%s, %s, %s, %s)", ls, outs, snaps, c08Zs(c.Pending))
+	nad, ls, outs, snaps := c08Labels(c)
+	return fmt.Sprintf("KTrace (%d%%nat, %s, %s, %s, %s)", nad, ls, outs, snaps, c08Zs(c.Pending))
 }
 
 func c08Gen(tier string, rng *rand.Rand) []c08Case {
@@ -700,7 +783,7 @@ func c08Gen(tier string, rng *rand.Rand) []c08Case {
 			sizes = append(sizes, 1, 4, 4, 32, 32, 256, 8, 64, 128)
 		}
 	}
-	kinds := []string{"reply", "dup", "none", "late", "f0", "funk", "oneway", "fdone"}
+	kinds := []string{"reply", "dup", "none", "late", "f0", "funk", "oneway", "fdone", "fcross"}
 	for si, n := range sizes {
 		c := c08Case{Kind: "trace", N: n, TimeoutMs: 150 + rng.Intn(200)}
 		// rounds on the same proxy and connection: replies to one round's calls (late, duplicated) arrive during the next
@@ -710,6 +793,10 @@ func c08Gen(tier string, rng *rand.Rand) []c08Case {
 		}
 		if si == 0 || si == 3 {
 			c.Rounds = 3
+		}
+		c.Proxies = 1 + rng.Intn(2)
+		if n == 1 {
+			c.Proxies = 1
 		}
 		used := map[string]bool{}
 		for k := 0; k < n*c.Rounds; k++ {
@@ -744,7 +831,7 @@ func c08Gen(tier string, rng *rand.Rand) []c08Case {
 			ks = append(ks, a)
 		}
 		sort.Strings(ks)
-		c.Class = fmt.Sprintf("trace/n%d/r%d/ids%d/%s", n, c.Rounds, si%4, strings.Join(ks, "+"))
+		c.Class = fmt.Sprintf("trace/n%d/r%d/p%d/ids%d/%s", n, c.Rounds, c.Proxies, si%4, strings.Join(ks, "+"))
 		cs = append(cs, c)
 	}
 	return cs
